@@ -11,8 +11,8 @@ from drivers import _httpgate_util as U
 META = {
     "engine": "httpgate",
     "text": "TLC enumerates every pair of ordered token lists over {zstd,gzip,identity,unknown}, duplicates included (quick: "
-            "both headers up to length 3, 28,900 cases; thorough: up to 4 on either header x up to 3 on the other, "
-            "202,980 cases) for Accept-Encoding and X-VGI-Accept-Encoding x every server encode set, proves the "
+            "Accept-Encoding up to length 3 x VGI up to 2, plus VGI of length 3 x Accept-Encoding up to 1, 8,420 cases; thorough: Accept-Encoding up to length 4 x VGI up to 3, plus VGI of "
+            "length 4 x Accept-Encoding up to 1, 121,060 cases) for Accept-Encoding and X-VGI-Accept-Encoding x every server encode set, proves the "
             "declarative rule equal to its operational form and checks the table-sanity invariants on every case; "
             "each case is rendered into real header strings (case variants, q-parameters, blanks, absent vs empty "
             "header) and sent to real apps built by make_wsgi_app, on a unary call and on a producer continuation "
@@ -118,14 +118,18 @@ def run(ctx: Ctx) -> None:
     if dev:
         plans = [({"MaxA": int(dev), "MaxV": int(dev), "MinV": 0}, invs)]
     elif quick:
-        plans = [({"MaxA": 3, "MaxV": 3, "MinV": 0}, invs)]
+        # Accept-Encoding up to 3 x VGI up to 2 (7,140 cases) plus VGI of length 3 x Accept-Encoding up to 1 (1,280)
+        plans = [({"MaxA": 3, "MaxV": 2, "MinV": 0}, invs), ({"MaxA": 1, "MaxV": 3, "MinV": 3}, invs)]
     else:
-        # lists up to length 4 on one header x up to length 3 on the other, both ways round (203k cases); the full
-        # invariant set is checked on the 3x3 space, the two big enumerations carry the three cheapest invariants
+        # Accept-Encoding lists up to length 4 x VGI lists up to length 3 (115,940 cases), plus every VGI list of
+        # length exactly 4 against the Accept-Encoding lists of length <= 1 (5,120 cases).  The complete 4x4 product
+        # (465k cases) costs TLC about 1.5 ms per case for enumeration + judging and does not fit the thorough budget
+        # on the shared box.  The full invariant set is checked on the 3x3 space, the big enumerations carry the
+        # three cheapest invariants.
         cheap = ["Agree", "OnlyOfferedAndProducible", "HeaderWellFormed"]
         U.enumerate_split(ctx, "httpgate", "Negotiate", constants={"MaxA": 3, "MaxV": 3, "MinV": 0}, invariants=invs,
                           emit=False, name="Negotiate:table-sanity-3x3")
-        plans = [({"MaxA": 4, "MaxV": 3, "MinV": 0}, cheap), ({"MaxA": 3, "MaxV": 4, "MinV": 4}, cheap)]
+        plans = [({"MaxA": 4, "MaxV": 3, "MinV": 0}, cheap), ({"MaxA": 1, "MaxV": 4, "MinV": 4}, cheap)]
     consts = plans[0][0]
     cases = []
     for k, (pc, pinv) in enumerate(plans):
